@@ -506,7 +506,7 @@ impl Property for C01 {
     }
     fn runs(&self, tier: Tier) -> u64 {
         match tier {
-            Tier::Quick => 120_000,
+            Tier::Quick => 200_000,
             Tier::Thorough => 2_000_000,
         }
     }
